@@ -340,6 +340,14 @@ func monC11(h *Hist, o *TxnObs) {
 		had := pre != nil && hasPool(pre, staker)
 		r.Distinct(fmt.Sprintf("%s|%s|%s|had=%v|%s", fn, ptype, o.Outcome, had, o.Call.Mut))
 	}
+	if o.Outcome == "failed" && unlockFns[fn] && pre != nil && hasPool(pre, staker) {
+		// "Unlocking pays back ... to its owner": an unlock may be refused for stated reasons (stake still covering offers, ...),
+		// but not with the claim that the owner has no delegate pool while the state holds one
+		h.C("C11", "unlocks_refused_with_pool_in_state")
+		if strings.Contains(o.Txn.TransactionOutput, "no such delegate pool") {
+			h.V("C11", "unlock-refused-although-pool-exists:"+ptype, fmt.Sprintf("unlock by %s refused with %q although the state holds its delegate pool (balance %d) on that provider", h.name(staker), trunc(o.Txn.TransactionOutput, 120), pre.Pools[staker].Balance), o)
+		}
+	}
 	if o.Outcome != "success" {
 		return
 	}
